@@ -87,6 +87,11 @@ def run(seed=0, trials=150):
         w, U = eigh_tridiagonal(al, be)
         Tm = np.diag(al) + np.diag(be, 1) + np.diag(be, -1)
         need(np.allclose(U @ np.diag(w) @ U.T, Tm) and np.all(np.diff(w) >= 0) and np.allclose(U.T @ U, np.identity(5)), 'eigh_tridiagonal')
+        need(np.allclose(U @ U.T, np.identity(5)) and np.isrealobj(U) and np.isrealobj(w) and all(np.allclose(Tm @ U[:, a], w[a] * U[:, a]) for a in range(5)), 'eigh_tridiagonal: rows orthonormal, eigen-equation')
+        zz = rng.standard_normal(6) + 1j * rng.standard_normal(6)
+        need(np.allclose(np.abs(np.exp(zz)) ** 2, np.exp(2 * zz.real)) and np.exp(0.0) == 1.0, '|exp(z)|^2 = exp(2 Re z)')
+        xx = rng.standard_normal(5) + 1j * rng.standard_normal(5)
+        need(np.allclose(np.exp(1j * w) * xx, np.array([np.exp(1j * w[k]) * xx[k] for k in range(5)])), 'array * array is the entrywise product')
         need(np.allclose(expm(np.zeros((3, 3))), np.identity(3)) and np.allclose(expm(np.diag([1.0, 2.0])), np.diag(np.exp([1.0, 2.0]))), 'expm')
     except Exception as e:      # pragma: no cover
         errs.append(f'scipy: {e}')
